@@ -121,12 +121,16 @@ def tlapm(specdir, module, timeout=900, name=None):
     for f in os.listdir(specdir):
         if f.endswith('.tla'):
             shutil.copy(os.path.join(specdir, f), d)
-    cmd = ['timeout', str(timeout), 'tlapm', '--threads', str(NCPU), module + '.tla']
-    try:
-        p = subprocess.run(cmd, cwd=d, stdout=subprocess.PIPE, stderr=subprocess.STDOUT, text=True)
-    except FileNotFoundError:
-        return -1, 0, 'tlapm not found'
-    out = p.stdout
+    out = ''
+    for stretch in ('3', '12'):        # back-end timeouts are wall-clock: a loaded machine gets a second, longer attempt
+        cmd = ['timeout', str(timeout), 'tlapm', '--threads', str(NCPU), '--stretch', stretch, module + '.tla']
+        try:
+            p = subprocess.run(cmd, cwd=d, stdout=subprocess.PIPE, stderr=subprocess.STDOUT, text=True)
+        except FileNotFoundError:
+            return -1, 0, 'tlapm not found'
+        out = p.stdout
+        if re.search(r'All (\d+) obligations? proved', out):
+            break
     shutil.rmtree(os.path.join(d, '.tlacache'), ignore_errors=True)
     m = re.search(r'All (\d+) obligations? proved', out)
     if m:
